@@ -534,6 +534,12 @@ func guardIsLoopCond(fn *ssa.Function) func(guard) bool {
 // back to its header, i.e. on to the next element) that does not execute `must`? Error exits leave the loop and are
 // not iterations that "continue".
 func iterationSkips(fn *ssa.Function, must ssa.Instruction) (bool, string) {
+	return iterationSkipsExcept(fn, must, nil)
+}
+
+// iterationSkipsExcept: as iterationSkips, but edges accepted by `legit` (the declared filter of the loop, e.g. the
+// unexported-field arm) do not count as a way round the instruction.
+func iterationSkipsExcept(fn *ssa.Function, must ssa.Instruction, legit func(from, to *ssa.BasicBlock) bool) (bool, string) {
 	var inner *loopInfo
 	for _, li := range naturalLoops(fn) {
 		li := li
@@ -549,7 +555,7 @@ func iterationSkips(fn *ssa.Function, must ssa.Instruction) (bool, string) {
 			continue
 		}
 		q := pathQuery{fn: fn, goal: func(in ssa.Instruction) bool { return in.Block() == inner.header }, avoid: func(in ssa.Instruction) bool { return in == must },
-			avoidEdge: func(from, to *ssa.BasicBlock) bool { return !inner.body[to] }}
+			avoidEdge: func(from, to *ssa.BasicBlock) bool { return !inner.body[to] || (legit != nil && legit(from, to)) }}
 		if reach, wit := pathFromBlock(q, s); reach {
 			return true, wit
 		}
